@@ -830,6 +830,15 @@ func (f *FnEnc) havocLoop(fr *Frame, li *loopInfo, ls *LoopSpec, st *State) *Sta
 		t := derefType(a.Type())
 		v := f.freshVal("lh_"+a.Comment, t)
 		st.locals[a] = v.L
+		// the hidden index of a range over a slice, array or string starts
+		// at -1 and is only ever incremented after being compared with the
+		// length: it is never below -1 (a fact of the compiler's lowering,
+		// the variable is not assignable by the program)
+		if a.Comment == "rangeindex" && len(v.L) == 1 {
+			if b, ok := t.Underlying().(*types.Basic); ok && b.Kind() == types.Int {
+				f.c.assume("true", "(bvsge "+v.L[0]+" (bvneg (_ bv1 64)))")
+			}
+		}
 	}
 	// the visited-sets of the range-over-map statements stepped in this loop
 	var bodyBlocks []*ssa.BasicBlock
